@@ -169,9 +169,21 @@ class CallModel:
             eng.store_field(st, obj, "gt_none", z3.BoolVal(False))
             eng.store_field(st, obj, "ph", VSet(INT, z3.K(z3.IntSort(), z3.BoolVal(False))))      # pysam writes unphased alleles
             return True
+        s = eng.load_field(st, obj, "tag_none")
+        k = eng.key_of(key)
         if v is NONE:
-            s = eng.load_field(st, obj, "tag_none")
-            eng.store_field(st, obj, "tag_none", VSet(INT, z3.Store(s.dom, eng.key_of(key), True)))
+            eng.store_field(st, obj, "tag_none", VSet(INT, z3.Store(s.dom, k, True)))
+            return True
+        if isinstance(v, z3.ExprRef) and v.sort() == z3.IntSort():
+            # an integer-valued tag (PS): the value is kept in tag_int
+            ti = eng.load_field(st, obj, "tag_int")
+            eng.store_field(st, obj, "tag_int", VDict(INT, INT, z3.Store(ti.dom, k, True), z3.Store(ti.map, k, v)))
+            eng.store_field(st, obj, "tag_none", VSet(INT, z3.Store(s.dom, k, False)))
+            return True
+        if isinstance(v, VList) and v.elem.z3sort() == z3.IntSort() and not v.is_str:
+            tl = eng.load_field(st, obj, "tag_list")
+            eng.store_field(st, obj, "tag_list", VDict(INT, LIST(INT), tl.dom, tl.map) if False else store_list_tag(eng, tl, k, v))
+            eng.store_field(st, obj, "tag_none", VSet(INT, z3.Store(s.dom, k, False)))
             return True
         raise Unsupported("call[%r] = value" % (key,))
 
@@ -202,6 +214,12 @@ class CallModel:
 
 
 _I = z3.Int("opt_i")
+_LISTID = z3.Function("LISTVAL", z3.ArraySort(z3.IntSort(), z3.IntSort()), z3.IntSort(), z3.IntSort())
+
+
+def store_list_tag(eng, tl, k, v):
+    """list-valued tags (HS) are kept as an abstract value id LISTVAL(array, length)"""
+    return VDict(INT, INT, z3.Store(tl.dom, k, True), z3.Store(tl.map, k, _LISTID(v.arr, v.len)))
 
 
 def as_bool_z3(v):
@@ -324,7 +342,8 @@ def install(R):
     R.declare_class("Reader", {"header": REF("Header"), "records": LIST(REF("Record"))})
     R.declare_class("Writer", {"header": REF("Header"), "written": LIST(REF("Record"))})
     R.declare_class("Record", {"fmt": SET(INT), "calls": LIST(REF("Call")), "frozen": BOOL})
-    R.declare_class("Call", {"rec": REF("Record"), "gt": LIST(OPTINT), "gt_none": BOOL, "ph": SET(INT), "tag_none": SET(INT)})
+    R.declare_class("Call", {"rec": REF("Record"), "gt": LIST(OPTINT), "gt_none": BOOL, "ph": SET(INT), "tag_none": SET(INT), "tag_int": DICT(INT, INT),
+                              "tag_list": DICT(INT, INT)})
     R.iter_fields["Reader"] = "records"
     R.object_models.update({"Record": RecordModel, "Header": HeaderModel, "HRec": HRecModel, "Reader": ReaderModel, "Writer": WriterModel, "Call": CallModel})
     R.external_models["VariantFile"] = model_VariantFile
